@@ -33,7 +33,10 @@ func nullary(t lat.Ty) bool { return lat.Nullary(t) }
 // unsoundClass names the failing rule as far as the terms tell: the two exclusions of the property first, then the
 // Iterable rules, then the outermost constructors.
 func unsoundClass(a, b lat.Ty, v lat.Val) string {
+	defCall := func(t lat.Ty) bool { return t.K == "call" && len(t.Ts) == 0 }
 	switch {
+	case a.K == "type" && b.K == "type" && lat.Contains(b, defCall) && lat.ContainsK(a, "call") && !lat.Contains(a, defCall):
+		return "unsound-type-callable-top" // transitivity of Callable through the default Callable (C03-trans-callable-top), one level up
 	case lat.ContainsK(a, "struct") && lat.ContainsK(b, "hash"):
 		return "unsound-sfh" // the by-specification rule Struct ⊒ Hash (exempt)
 	case lat.ContainsK(a, "iter") && lat.ContainsK(b, "bin"):
@@ -174,7 +177,7 @@ func exec(c px.Context, op string, args []sx.Sexp) core.Result {
 }
 
 func gen(g *core.G) {
-	lg := &lat.Gen{R: g.Rng}
+	lg := &lat.Gen{R: g.Rng, Call: true}
 	u1, u2 := lat.Universe(1), lat.Universe(2)
 	vals := lat.ValUniverse()
 	pick := func(ts []lat.Ty) lat.Ty { return ts[g.Rng.Intn(len(ts))] }
@@ -225,6 +228,14 @@ func gen(g *core.G) {
 		}
 	}
 
+	// the Callable types (no value of the value language is a lambda): acceptance of a sample of the pairs
+	for _, a := range lat.CallableUniverse() {
+		for _, b := range lat.CallableUniverse() {
+			if g.Thorough() || g.Rng.Intn(6) == 0 {
+				g.Emit("asg " + a.String() + " " + b.String())
+			}
+		}
+	}
 	// the Runtime types (no value of the value language is an instance of one): acceptance of every pair, and soundness against a few
 	// values that are instances of neither
 	for _, a := range lat.RuntimeUniverse() {
